@@ -51,7 +51,7 @@ func (b c01MemBackend) Close()                               {}
 type c01FileBackend struct {
 	fs    *certmagic.FileStorage
 	dir   string
-	log   doubles.Log
+	log   *doubles.Log
 	mu    sync.Mutex
 	owner map[string]string // lock file -> instance
 	// the lock file a dead holder left behind (leaveLockFile): not a lock anybody holds as long as it is untouched
@@ -64,7 +64,7 @@ func c01NewFileBackend() (*c01FileBackend, error) {
 	if err != nil {
 		return nil, err
 	}
-	return &c01FileBackend{fs: &certmagic.FileStorage{Path: dir}, dir: dir, owner: map[string]string{}}, nil
+	return &c01FileBackend{fs: &certmagic.FileStorage{Path: dir}, dir: dir, owner: map[string]string{}, log: &doubles.Log{}}, nil
 }
 
 func (b *c01FileBackend) Close() { os.RemoveAll(b.dir) }
@@ -99,7 +99,7 @@ func (b *c01FileBackend) leaveLockFile(name, kind string) error {
 	}
 	return nil
 }
-func (b *c01FileBackend) GetLog() *doubles.Log { return &b.log }
+func (b *c01FileBackend) GetLog() *doubles.Log { return b.log }
 func (b *c01FileBackend) LockID(name string) string {
 	return filepath.Base(certmagic.VerifLocksFileLockPath(b.fs, name))
 }
